@@ -392,6 +392,11 @@ func (m *Model) Apply(cmd *Cmd) Expect {
 		if cmd.Cond != nil && !cmd.Cond.Eval(orEmpty(cur)) {
 			return Expect{Out: ccf(cur, cmd.RetOnFail)}
 		}
+		if c.Native {
+			// native interpreter active and the harness registers no updater:
+			// the update fails with the unsupported-feature error, nothing changes
+			return Expect{AnyFail: true}
+		}
 		for _, tg := range cmd.Upd.Targets() {
 			for _, k := range t.Def.KeyAttrs() {
 				if tg == k.Name {
